@@ -1,13 +1,20 @@
 package bytecode
 
 import (
+	"bytes"
 	"encoding/binary"
 	"fmt"
+	"regexp"
+	"strconv"
+	"strings"
 	"testing"
 	"unsafe"
 
+	"github.com/tencent/goom/internal/logger"
 	"github.com/tencent/goom/internal/zzverif/vh"
 )
+
+var c17Line = regexp.MustCompile(`\[(\d+)\] 0x([0-9a-f]+):([^\n]*)`)
 
 // The package under test is goom's internal/bytecode/func_arm64.go (with func.go for its package-level variables)
 // re-hosted under a neutral file name so that it compiles on the amd64 sandbox: the scans only read memory through
@@ -42,6 +49,49 @@ func TestVerifC17Func(t *testing.T) {
 					return "zero"
 				}
 				return fmt.Sprintf("target=%d", int64(a)-int64(start))
+			}))
+		case "c17.size2": // two calls for the same function WITHOUT touching the cache in between (func_arm64.go:31-37)
+			buf, start := c17Buf(op.Toks[2:])
+			out.Put(op.Idx, "%s", vh.Catch(func() string {
+				delete(funcSizeCache, start)
+				n1, err1 := GetFuncSize(64, start, op.Toks[1] == "1")
+				n2, err2 := GetFuncSize(64, start, op.Toks[1] == "1")
+				_, cached := funcSizeCache[start]
+				_ = buf[0]
+				delete(funcSizeCache, start)
+				if err1 != nil || err2 != nil {
+					return "err"
+				}
+				return fmt.Sprintf("size=%d again=%d cached=%v", n1, n2, cached)
+			}))
+		case "c17.print": // PrintInstf on the first <n> bytes of the words: every line it logs, canonicalised
+			nb := int(vh.U64(op.Toks[1]))
+			buf, start := c17Buf(op.Toks[2:])
+			out.Put(op.Idx, "%s", vh.Catch(func() string {
+				var sink bytes.Buffer
+				old := logger.Logger
+				logger.Logger = &sink
+				defer func() { logger.Logger = old }()
+				PrintInstf("c17", start, buf[:nb], 0)
+				var obs []string
+				for _, m := range c17Line.FindAllStringSubmatch(sink.String(), -1) {
+					addr, _ := strconv.ParseUint(m[2], 16, 64)
+					off := int64(addr) - int64(start)
+					if strings.Contains(m[3], "inst decode error") {
+						obs = append(obs, fmt.Sprintf("%d=err", off))
+						continue
+					}
+					f := strings.Fields(m[3])
+					if len(f) < 2 {
+						obs = append(obs, fmt.Sprintf("%d=?", off))
+						continue
+					}
+					obs = append(obs, fmt.Sprintf("%d=%s/%s", off, f[0], f[len(f)-1]))
+				}
+				if len(obs) == 0 {
+					return "printed:-"
+				}
+				return "printed:" + strings.Join(obs, ",")
 			}))
 		case "c17.size":
 			buf, start := c17Buf(op.Toks[2:])
